@@ -207,6 +207,20 @@ func TestHistoriesByteLevel(t *testing.T) {
 	})
 }
 
+// TestHistoriesLongLexemes: valid programs whose tokens carry very long values
+// (an observer that abbreviates, copies or re-slices a long value is where an
+// in-place write into the shared source buffer would come from).
+func TestHistoriesLongLexemes(t *testing.T) {
+	harness.Check(t, "histories-long-lexemes", 1500, 60000, func(rt *rapid.T) {
+		src := inputs.LongLexemes(rt)
+		v := rapid.SampledFrom(px.KeyVersions).Draw(rt, "version")
+		if r := px.Parse(append([]byte{}, src...), v, true); len(r.Errs) > 0 || r.Panic != "" {
+			harness.Fail(rt, "valid-rejected", src, map[string]string{"version": v.String()}, "[%s] long-lexeme program rejected: %s%s", v, px.ErrString(r.Errs), r.Panic)
+		}
+		runHistory(rt, src, v, "long-lexemes")
+	})
+}
+
 // TestTreesAreIndependent: two parses share no node or token object, so that
 // modifying one tree (here: formatting it) cannot change another.
 func TestTreesAreIndependent(t *testing.T) {
